@@ -227,6 +227,10 @@ class FindModel(Model):
         args = n["args"]
         last = fn.split("::")[-1]
         A_ = lambda i: self.ev(args[i], env)
+        if fn.endswith("Index::index") and len(args) == 2:
+            b0 = A_(0)
+            if isinstance(b0, str) or (isinstance(b0, tuple) and b0 and b0[0] in ("lit", "seq")):
+                return self.index(b0, A_(1))
         # ---- documents
         if fn.endswith("Object::get") and len(args) == 2:
             o, key = A_(0), _s(A_(1))
